@@ -57,7 +57,7 @@ PROPS = {
         "timeout": 3000,
     },
     "C12": {
-        "claimed": False,
+        
         "lean_props": ["ZarrsModel.Props.C12"],
         "harness": "c12",
         "driver_gen_also": True,
@@ -69,7 +69,7 @@ PROPS = {
                 "fields, whole chunks left out), read through Array::open + retrieve_array_subset (whole and 3 random regions) + retrieve_chunk; non-trivial = distinct request whose outcome is a non-empty value or dump",
         "nontrivial": lambda l: (" -> val " in l and not l.endswith("~")) or (" -> kv " in l and not l.endswith("~")),
         "exhaustive": False,
-        "trusted_base": COMMON_TB + ["the specification-level reader/writer (Zarrs.Conform, Zarrs.Inflate) is this check's reading of the Zarr V3/V2 specifications and RFC 1950-1952; its DEFLATE decoder is validated against Python's zlib at levels 0/1/6/9 (lib/selftest)"],
+        "trusted_base": COMMON_TB + ["the specification-level reader/writer (Zarrs.Conform, Zarrs.Inflate) is this check's reading of the Zarr V3/V2 specifications and RFC 1950-1952; its DEFLATE decoder is run against flate2 output of every block type and level 0..9 in each check (c12 inflate lines) and was validated once against Python zlib"],
         "assumptions": ["data types with a specified binary form of 1/2/4/8 bytes (complex and raw-bits types differ only in element size handling)", "one level of sharding"],
         "timeout": 3000,
     },
